@@ -57,7 +57,7 @@ THEOREMS['C04'] = ['FB.C04_exists_iff', 'FB.C04_not_both', 'FB.C04_listDir_iff',
                    'FB.BuildDirs.handleDirExists_qinvR', 'FB.BuildDirs.init_qinvR', 'FB.BuildDirs.hasCount_iff_live',
                    'FB.C04_view_wellformed', 'FB.C04_build_view_wellformed', 'FB.wf_visible', 'FB.bfSetup_good', 'FB.wf_preClean',
                    'FB.C04_target_hidden_while_running', 'FB.C04_target_visible_after_return', 'FB.C04_target_gone_after_failure',
-                   'FB.C04_walk_consistent', 'FB.walkEntryOf_lists', 'FB.C04_walk_order']
+                   'FB.C04_walk_consistent', 'FB.walkEntryOf_lists', 'FB.C04_walk_order', 'FB.walkAux_complete']
 THEOREMS['C02'] = ['FB.C02_rolledBack_frame', 'FB.C02_rolledBack_files', 'FB.C02_spec_build_raises', 'FB.Backups.restoreAll_spec',
                    'FB.Backups.restoreOne_self', 'FB.Backups.restoreOne_other', 'FB.Backups.backUp_file',
                    'FB.Rollback.rollBack_restores_files', 'FB.Rollback.removeNew_spec', 'FB.Rollback.restoreAll_file_from',
